@@ -57,7 +57,10 @@ RULE = ("field maps: regenerated from /repo/src on every run (all structs derivi
         "instance handed back to a scratch pool must be in its reset state (hidden state outside the snapshot); Ising and generic samplers started from a PREPARED operator string (FastOps::new_from_ops through the manager hooks) holding legal "
         "but non-canonical ops — constant single-site ops written as Offdiagonal(s, s), as tests/check_rvb_crash.rs writes them — with "
         "snapshots at k = 0..3 (right after restore every op's vars, bond, inputs, outputs, is_diagonal(), is_constant() must equal the "
-        "original's: they are part of the compared operator string); a snapshot in both forms at EVERY step "
+        "original's: they are part of the compared operator string); scale / regime cases: rings of 33, 65, 130 (thorough also 64, 100) spins with initial states having up spins at indices "
+        "31, 32, 63, 64 / all up / word-boundary / random, a hub with 300 leaves and a complete graph on 40 spins with rvb on, every "
+        "snapshot form (with RNG, RNG-less, and inside a tempering container), k = 0..2, a few lock-step steps incl. rvb sweeps; "
+        "a snapshot in both forms at EVERY step "
         "index k = 0..K, then m further steps on original / with-RNG copy / RNG-less copy / a copy that is snapshot-restored "
         "after every step, comparing state, operator string, n, cutoff, energy bits, rvb rate bits, verify() and the full JSON "
         "snapshot after each step.  Non-trivial = at least one operator present at the snapshot point; distinct = distinct "
